@@ -26,6 +26,17 @@ theorem C16_model_steps_are_the_source_steps :
         [RefCounter.RPc.idle, .f1 0, .f2 0 0, .f3 0 0 0].map RefCounter.RPc.opName
       ∧ MAXP = 2 ^ 20 := by decide
 
+/-- nothing but the modelled steps touches the counters (regenerated from the source on every run): in node.rs
+`reference_counter` is only ever advanced by `fetch_add` — three times in `make_reference`, once for a remote `unlink` —
+and never stored, reset, loaded or cloned anywhere else (not in `start`, not on reconnect); in pid_allocator.rs `next_id`
+and `next_serial` are touched inside `allocate()` only. The all-schedules theorems below speak about exactly these steps. -/
+theorem C16_counters_touched_only_by_the_modelled_steps :
+    Gen.REFERENCE_COUNTER_ACCESSES =
+        ["unlink:fetch_add", "make_reference:fetch_add", "make_reference:fetch_add", "make_reference:fetch_add"]
+      ∧ Gen.ALLOCATOR_COUNTER_ACCESSES =
+        ["next_id@allocate:load", "next_id@allocate:store", "next_id@allocate:store",
+         "next_serial@allocate:load", "next_serial@allocate:fetch_add"] := by decide
+
 /-- the sequential function is the small-step semantics run by one thread without interruption (6 or 7 steps) -/
 theorem C16_alloc_is_uninterrupted_run (s : Sh) (t : Nat) :
     (runTasks (St.init s) (List.replicate 7 t)).out.head? = some (t, (alloc s).1) := by
